@@ -1,18 +1,24 @@
 """C29 A refused porcelain operation changes nothing (DESIGN.md §4.C29)."""
 from props import porcelain_lib as P
+from props import c29ops_lib as _O
 from props.C25 import MODELLED as _M
 
 ID = "C29"
 THEOREMS = ["C29_reset_atomic", "C29_checkout_atomic", "C29_checkout_no_late_refusal", "C29_step_atomic"]
-MODEL_FILES = ["Porcelain.v"]
-MODELLED = _M + "; Checkout is modelled in the order of the repaired code (fix: decide every refusal of Checkout before the branch is created and HEAD is moved); C29 covers the error exits of Checkout and Reset (Restore/Add/Commit/Merge/Pull and injected filesystem faults are not modelled)"
+MODEL_FILES = ["Porcelain.v", "PorcelainOps.v"]
+THEOREMS = THEOREMS + list(_O.THEOREMS_OPS)
+MODELLED = _M + "; Checkout is modelled in the order of the repaired code (fix: decide every refusal of Checkout before the branch is created and HEAD is moved); C29 covers the error exits of Checkout and Reset (Add and Commit refusals are exercised with the snapshot oracle but not modelled; Restore/Merge/Pull and injected filesystem faults are not covered; deleted blobs / nested trees are oracle-only)"
 TRUSTED = [
     "C-impl: harness/cmd/porcelain vs Model/Porcelain.porcelain_run (result class + snapshot after every op)",
     "direct oracle: for every checkout / reset that returns an error, the snapshot taken before the call (HEAD, every ref, raw bytes of "
     ".git/HEAD, .git/packed-refs and .git/refs/**, decoded index entries, every worktree file with kind and bytes) must equal the one taken after",
 ]
 ASSUMPTIONS = ["object ids are injective on the blobs of a case", "df_free cases only are given to the model; the oracle runs on all"]
-RULE = ("porcelain recipes (see C25) with buckets aimed at refusals: unstaged changes under non-forced checkout / merge reset, local changes "
+RULE = ("porcelain recipes (see C25) with buckets aimed at refusals: the missing-object family in both tiers (HEAD's commit missing, directly or "
+        "through its branch; HEAD symbolic to a missing or non-branch ref; target hash naming a tree or a blob; target or HEAD commit whose "
+        "root tree is deleted; a deleted blob / nested tree of the target; Add of a missing path, Commit on a clean tree or on a dangling HEAD) "
+        "crossed with Checkout by branch / by hash / with Create (with and without an explicit hash) x Force / Keep / neither and Reset in all "
+        "five modes; unstaged changes under non-forced checkout / merge reset, local changes "
         "under keep reset, option validation (branch+hash, create without name, existing branch), unknown reference, missing object, "
         "dangling / unborn HEAD; non-trivial = some porcelain op is refused; distinct by content")
 
@@ -37,9 +43,10 @@ def df_blocked(c, op, pre):
 
 class Main(P.PorcelainSuite):
     name = "main"
+    missing_kinds = None
     quick_n = 150
     thorough_n = 1000
-    buckets = [(5, "unstaged"), (4, "errors"), (3, "keep"), (2, "random"), (1, "staged"), (1, "df")]
+    buckets = [(7, "missing"), (4, "unstaged"), (4, "errors"), (3, "keep"), (2, "random"), (1, "staged"), (1, "df")]
     weights = {"force": 1, "plain": 6, "ckeep": 1, "hard": 1, "merge": 4, "keep": 3, "mixed": 1, "soft": 1}
 
     def gen(self, rng, n, tier):
@@ -49,7 +56,7 @@ class Main(P.PorcelainSuite):
         return cs
 
     def nontrivial(self, c):
-        return super().nontrivial(c)
+        return any(o["op"] in ("checkout", "reset", "add", "commit") for o in c["ops"]) and bool(c["commits"])
 
     def oracle(self, ctx, cases, impl, model):
         fails = {}
@@ -60,15 +67,17 @@ class Main(P.PorcelainSuite):
                 fails[c["id"]] = "other|no reply from the implementation"
                 continue
             for k, (op, pre, st) in enumerate(P.steps_of(c, r)):
-                if op["op"] not in ("checkout", "reset") or st["res"] in ("ok", "init"):
+                if op["op"] not in ("checkout", "reset", "add", "commit") or st["res"] in ("ok", "init"):
                     continue
                 self.refusals += 1
                 d = snap_diff(pre, st["snap"])
                 if not d:
                     continue
                 cls = "other"
-                if st["res"] == "other" and df_blocked(c, op, pre):
+                if st["res"] == "other" and op["op"] in ("checkout", "reset") and df_blocked(c, op, pre):
                     cls = "partial-failure-on-df-conflict"
+                elif c.get("noobject") and op["op"] in ("checkout", "reset") and st["res"] in ("other", "object_not_found"):
+                    cls = "partial-failure-on-missing-blob-or-subtree"
                 fails[c["id"]] = "%s|op %d %s refused (%s) but %s changed: head %s -> %s, refs %s -> %s" % (
                     cls, k, op, st["res"], d, pre["head"], st["snap"]["head"], pre["refs"], st["snap"]["refs"])
                 break
@@ -82,4 +91,10 @@ class Main(P.PorcelainSuite):
         return {"refused_ops": getattr(self, "refusals", 0)}
 
 
-SUITES = [Main()]
+SUITES = [Main()] + list(_O.SUITES_OPS)
+
+try:
+    MODELLED = MODELLED + "; " + _O.MODELLED_OPS
+    TRUSTED = list(globals().get("TRUSTED", [])) + list(_O.TRUSTED_OPS)
+except Exception:
+    pass
